@@ -64,7 +64,8 @@ def _draw_layout(rng, *, max_features=12, min_samples=14, max_samples=30, allow_
         fields.append(fd)
     d["fields"] = fields
     d["names"] = rng.choice([["v0", "v1", "v2"], ["sst", "slp", "u"], ["a", "b", "c"]])
-    d["ratio"] = rng.choice([0.5, 0.6, 0.7])
+    # steep spectra keep the mode order robust; flat ones make rotations re-rank modes (sorting bookkeeping)
+    d["ratio"] = rng.choice([0.5, 0.6, 0.7, 0.9, 0.95])
     d["scale"] = rng.choice([1.0, 1.0, 10.0, 0.1])
     d["offset"] = rng.choice([0.0, 1.0, 5.0])
     d["order"] = rng.choice(["sf", "sf", "fs", "mixed"])
